@@ -23,7 +23,7 @@ def run(ctx):
     ctx.set("build_s", info["build_s"])
     ctx.set("flavors", sorted({r.flavor for r in recs}))
     ctx.set("cross_build_comparisons", cov["cross_build_comparisons"])
-    ctx.set("invalid_without_failure_channel", cov["invalid_without_failure_channel"])
+    ctx.set("failing_calls_not_given_to_instances_without_failure_channel", info.get("failing_calls_not_given_to_instances_without_failure_channel", 0))
     ctx.set("crashes_contained", sum(1 for r in recs if r.crash is not None))
     ctx.set("value_spaces", info["spaces"])
     ctx.set("instances_cut_short_after_repeated_crashes", info.get("instances_cut_short_after_repeated_crashes", {}))
